@@ -250,7 +250,7 @@ type Opts struct {
 	NoIface     bool
 	// KnownFindings switches on the shapes behind open known findings (low probability).
 	NameConflicts bool // fields that share a Go name but not a JSON name, or vice versa (incl. duplicates at one level)
-	BigInt       bool // math/big.Int (inferred as string, marshals as number)
+	BigInt        bool // math/big.Int (inferred as string, marshals as number)
 }
 
 var (
